@@ -125,7 +125,12 @@ Ltac split_facts :=
   | |- context [mem (firstn ?k ?d)] =>
       lazymatch goal with
       | _ : mem d = mem (firstn k d) + mem (skipn k d) |- _ => fail
-      | _ => pose proof (mem_split k d)
+      | _ => pose proof (mem_split k d); pose proof (mem_nonneg (firstn k d)); pose proof (mem_nonneg (skipn k d))
+      end
+  | H : context [mem (firstn ?k ?d)] |- _ =>
+      lazymatch goal with
+      | _ : mem d = mem (firstn k d) + mem (skipn k d) |- _ => fail
+      | _ => pose proof (mem_split k d); pose proof (mem_nonneg (firstn k d)); pose proof (mem_nonneg (skipn k d))
       end
   end;
   repeat match goal with
@@ -153,6 +158,7 @@ Section Crypto.
     intros [op il idata] [pg pc0 npc rl df er vd ds als] Hop. cbn [i_op] in Hop. subst op. facts.
     op_start; op_run_with ltac:(popn_step); repeat (model_split; negb_fix; ms_fix; op_run_with ltac:(popn_step));
       try final.
-    all: rewrite ?(size_operand_val _ _ D E); split_facts; try final. Show.
+    all: rewrite ?(size_operand_val _ _ D E); split_facts; try final.
+    all: exfalso; arith.
   Qed.
 End Crypto.
